@@ -119,6 +119,8 @@ class XGBoostSampler(MLSurrogateSampler):
             "Found loss values out of float32 limits, clipping them for XGBoost.",
             RuntimeWarning,
         )
+        # do not write into the caller's array (the calibrator passes its loss history)
+        y = np.copy(y)
         if len(large_floats) > 0:
             y[large_floats] = MAX_FLOAT32 - EPS_FLOAT32
 
